@@ -77,8 +77,8 @@ def translators(prop):
     return ok, log
 
 
-ALL_TRANSLATORS = ["tr_rules", "tr_prec", "tr_smart", "tr_naming", "tr_opts", "tr_jit", "tr_math", "tr_scope", "tr_c10", "tr_sites"]
-TRANSLATORS_FOR: dict[str, list[str]] = {"C19": ["tr_rules"], "C16": ["tr_prec"], "C17": ["tr_smart"], "C13": ["tr_naming"], "C20": ["tr_opts"], "C14": ["tr_jit"], "C15": ["tr_jit"], "C09": ["tr_math"], "C11": ["tr_scope"], "C10": ["tr_c10"], "C12": ["tr_sites"], "C18": ["tr_prec"]}
+ALL_TRANSLATORS = ["tr_rules", "tr_prec", "tr_smart", "tr_naming", "tr_opts", "tr_jit", "tr_math", "tr_scope", "tr_c10", "tr_sites", "tr_quad"]
+TRANSLATORS_FOR: dict[str, list[str]] = {"C19": ["tr_rules"], "C16": ["tr_prec"], "C17": ["tr_smart"], "C13": ["tr_naming"], "C20": ["tr_opts"], "C14": ["tr_jit"], "C15": ["tr_jit"], "C09": ["tr_math"], "C11": ["tr_scope", "tr_quad"], "C10": ["tr_c10"], "C12": ["tr_sites"], "C18": ["tr_prec"]}
 
 # what `make` must build for a property: only its own closure, so that a broken
 # obligation of one property never raises an alarm for another
@@ -91,7 +91,7 @@ PROP_TARGETS: dict[str, list[str]] = {
     "C04": ["theories/Flatten.vo"],
     "C06": ["theories/FormData.vo"],
     "C09": ["theories/MathTab.vo", "gen/MathTabGen.vo"],
-    "C11": ["theories/Scopes.vo", "gen/ScopeGen.vo"],
+    "C11": ["theories/Scopes.vo", "gen/ScopeGen.vo", "theories/QuadExact.vo", "gen/QuadGen.vo"],
     "C12": ["theories/Order.vo", "gen/SitesGen.vo"],
     "C18": ["theories/Fmt.vo", "gen/PrecGen.vo"],
     "C10": ["theories/Clamp.vo", "theories/Diag.vo", "theories/SumFact.vo", "gen/C10Gen.vo"],
